@@ -154,7 +154,7 @@ func (f *Fn) prov(e ast.Expr, depth int, busy map[*types.Var]bool) string {
 		return "ident:" + x.Name
 	case *ast.SelectorExpr:
 		if sel := f.Info.Selections[x]; sel != nil {
-			return f.prov(x.X, depth, busy) + "." + x.Sel.Name
+			return distribute(f.prov(x.X, depth, busy), "."+x.Sel.Name)
 		}
 		// qualified identifier
 		if o := f.Info.ObjectOf(x.Sel); o != nil && o.Pkg() != nil {
@@ -166,7 +166,7 @@ func (f *Fn) prov(e ast.Expr, depth int, busy map[*types.Var]bool) string {
 		}
 		if se, ok := ast.Unparen(x.Fun).(*ast.SelectorExpr); ok {
 			if sel := f.Info.Selections[se]; sel != nil {
-				return f.prov(se.X, depth, busy) + "." + se.Sel.Name + "()"
+				return distribute(f.prov(se.X, depth, busy), "."+se.Sel.Name+"()")
 			}
 		}
 		if id, ok := ast.Unparen(x.Fun).(*ast.Ident); ok {
@@ -186,15 +186,15 @@ func (f *Fn) prov(e ast.Expr, depth int, busy map[*types.Var]bool) string {
 		}
 		return "call:?()"
 	case *ast.SliceExpr:
-		return f.prov(x.X, depth, busy) + "[:]"
+		return distribute(f.prov(x.X, depth, busy), "[:]")
 	case *ast.TypeAssertExpr:
-		return f.prov(x.X, depth, busy) + ".(type)"
+		return distribute(f.prov(x.X, depth, busy), ".(type)")
 	case *ast.StarExpr:
 		return f.prov(x.X, depth, busy)
 	case *ast.UnaryExpr:
 		return x.Op.String() + f.prov(x.X, depth, busy)
 	case *ast.IndexExpr:
-		return f.prov(x.X, depth, busy) + "[" + f.prov(x.Index, depth+1, busy) + "]"
+		return distribute(f.prov(x.X, depth, busy), "["+f.prov(x.Index, depth+1, busy)+"]")
 	case *ast.BinaryExpr:
 		return "(" + f.prov(x.X, depth+1, busy) + x.Op.String() + f.prov(x.Y, depth+1, busy) + ")"
 	case *ast.CompositeLit:
@@ -446,4 +446,16 @@ func (f *Fn) shortCircuitNonNil(use ast.Node, want string) bool {
 var provTransparent = map[string]bool{
 	"kv/sqlite3.bindUint64AsInt64": true,
 	"kv/sqlite3.scanInt64AsUint64": true,
+}
+
+// distribute appends suffix to every alternative of a provenance ("a|b" + ".x" = "a.x|b.x").
+func distribute(base, suffix string) string {
+	if !strings.Contains(base, "|") {
+		return base + suffix
+	}
+	parts := strings.Split(base, "|")
+	for i := range parts {
+		parts[i] += suffix
+	}
+	return strings.Join(parts, "|")
 }
